@@ -26,7 +26,7 @@ SPEC = {
     "needs_thorough": ["probe-rel", "probe-chk"],
     "rule": ("programs from G_isa, G_casc, G_bank and include-wrapping variants x 12 views drawn from the parameter space; "
              "non-trivial = successful program with >= 3 items whose views were all checked; distinct = distinct (source, views)"),
-    "monitors": ["annotated", "tcgame", "addrspan", "symbols", "mesen-mlb"],
+    "monitors": ["annotated", "tcgame", "addrspan", "symbols", "mesen-mlb", "address-assigned-by-layout"],
     "min_nontrivial": {"quick": 500, "thorough": 10000},
     "assumptions": ["spans and symbol values of the record are the ground truth for 'the assembly'"],
 }
@@ -66,12 +66,42 @@ def wrap_with_include(rng, src):
     return {"main.asm": deco + head + "\n\n#include \"inc/body.asm\"\n", "inc/body.asm": deco + body}, ["main.asm"]
 
 
+def assigned_address_ok(span, banks):
+    """The address column of the listings comes from the span's recorded address; it must be the address the layout
+    assigns: some bank b with an output window containing the item has addr_b + floor((offset - outp_b) / unit_b)."""
+    o, size, addr = span[0], span[1], span[2]
+    if o is None:
+        return True
+    a = -int(addr[1:], 16) if addr.startswith("-") else int(addr, 16)
+    usable = banks[1:] if len(banks) > 1 else banks
+    for b in usable:
+        if b["outp"] is None or o < b["outp"]:
+            continue
+        p = o - b["outp"]
+        if b["size"] is not None and p + size > b["size"]:
+            continue
+        a0 = -int(b["addr"][1:], 16) if b["addr"].startswith("-") else int(b["addr"], 16)
+        if a == a0 + p // b["unit"]:
+            return True
+    return False
+
+
 def judge(ctx, job, rec, files, views):
     spans = rec["out"]["spans"]
     n, v = lib.out_bits(rec)
     bits = lib.bits_str(n, v)
     fm = rec.get("formats") or {}
     good = True
+    banks = [b for b in rec.get("banks") or [] if b]
+    if banks:
+        ctx.monitor("address-assigned-by-layout")
+        for sp in spans:
+            if not assigned_address_ok(sp, banks):
+                ctx.violation("listing", {"kind": "row-address-differs-from-layout", "negative_bank_address": any(b["addr"].startswith("-") for b in banks),
+                                          "starts_inside_an_address_unit": True}, job,
+                              "address = bank address + floor((offset - outp) / unit)", {"span": sp[:3], "banks": banks})
+                good = False
+                break
     for view in views:
         out = fm.get(view)
         name, base, group = view_params(view)
